@@ -65,9 +65,19 @@ CHECKS = {
        'SearchKey, ObjectId, ExtensionOptions) on all buffers up to 4 (quick) / 6 (thorough) bytes, Commands.parse behind '
        '30 grammar-guided prefixes followed by up to 2-6 symbolic bytes with the literal continuation loop, IDLE DONE, '
        'and the ManageSieve command parser; a path on which anything but NotParseable/ParsingInterrupt escapes or the loop '
-       'budget is exceeded is a counterexample, replayed on plain pymap under a wall-clock alarm.',
+       'budget is exceeded is a counterexample, replayed on plain pymap under a CPU-time alarm. Connection level (real IMAPConnection.run '
+       'on a scripted transport; oracle: every line gets a tagged result, no [SERVERBUG], and if the server stops reading it has said '
+       'BYE): a run of 7 lines one of which is symbolic at any position (bad-command limit and its reset), AUTHENTICATE PLAIN with the '
+       'base64 of <= 3/4 symbolic bytes through the instrumented pysasl mechanism and an ASCII-exact SASLprep model, command lines with '
+       '4000-12000 nested constructs plus a symbolic tail, stored messages with thousands of nested subject prefixes / MIME levels, and '
+       'stored messages whose headers are drawn from representatives of the email package\'s outcome classes, each followed by FETCH of '
+       'every attribute and SEARCH of every header/date/text key. SequenceSet._get_range: for unbounded symbolic numbers no element '
+       'expands to more numbers than the mailbox holds.',
   note=TRUST + 'Codecs are exact models validated against CPython; strptime and unknown codec names are stubs (documented '
-       'contract). Outside: rendering of stored messages through the email package, lines near 64 KiB, deep nesting.',
+       'contract). The text of message headers is parsed by the standard library email package, which is not encoded: header values '
+       'are concrete representatives (absent / well-formed / degenerate / makes the package raise), chosen by the engine - no claim '
+       'for other header texts. Recursion limit scaled to 2500 under instrumentation (depths chosen far beyond). Outside: lines near '
+       '64 KiB. One known finding (unknown Content-Transfer-Encoding + FETCH BINARY).',
   technique='symbolic execution of the real parsers with z3 (path exhaustion, loop-fuel monitor), bounded by buffer length'),
  'C07': dict(
   text='The real response serialisers (String.build, QuotedString/LiteralString, AString/Mailbox + modutf7_encode, List, '
